@@ -241,6 +241,28 @@ def check(case):
             case.close(v1, first[0], rtol=1e-9, what='compute_log_likelihood vs score of compute_sensitivities')
             case.close(np.sum(p1), v1, rtol=1e-9, what='sum(pointwise) vs total (same arrays)')
 
+    # whole-number parameters, outputs and observations typed as integers (Python ints / int arrays) are the same
+    # numbers: the results equal those of the float-typed call
+    if s['fixed'] is None and not s['oos']:
+        with case.clause('integer_inputs'):
+            i_sig = np.maximum(1, np.round(np.abs(sig))).astype(int)
+            i_yb = np.maximum(1, np.round(np.abs(ybar))).astype(int)
+            i_y = np.maximum(1, np.round(np.abs(y))).astype(int)
+            i_S = np.round(S).astype(int)
+            f_args = (i_sig.astype(float), i_yb.astype(float), i_y.astype(float))
+            want_i = float(np.real(ref.em_loglik(kind, f_args[0], f_args[1], f_args[2])))
+            for label, conv in (('int arrays', lambda a: a), ('lists of Python ints', lambda a: a.tolist())):
+                v = em.compute_log_likelihood(conv(i_sig), conv(i_yb), conv(i_y))
+                case.close(v, want_i, rtol=1e-9, what='log-likelihood for whole numbers given as %s' % label)
+                pw = np.asarray(em.compute_pointwise_ll(conv(i_sig), conv(i_yb), conv(i_y)), dtype=float)
+                case.close(np.sum(pw), want_i, rtol=1e-9, what='sum(pointwise) for whole numbers given as %s' % label)
+                sc_i, se_i = em.compute_sensitivities(conv(i_sig), conv(i_yb), conv(i_S) if label == 'int arrays' else i_S,
+                                                      conv(i_y))
+                sc_f, se_f = em.compute_sensitivities(f_args[0], f_args[1], i_S.astype(float), f_args[2])
+                case.close(sc_i, want_i, rtol=1e-9, what='score of compute_sensitivities for whole numbers given as %s' % label)
+                case.close(np.asarray(se_i, dtype=float), np.asarray(se_f, dtype=float), rtol=1e-12,
+                           what='sensitivities for whole numbers given as %s vs the same numbers as floats' % label)
+
     # the fixed set of a reduced error model is swapped in ONE call (never all free in between)
     if s['fixed'] is not None and npar == 2 and len(s['fixed']) == 1 and insup:
         with case.clause('refix_swap'):
